@@ -2954,6 +2954,11 @@ fn main() {
 	if mode == "all" || mode == "peers" {
 		more::peers_level(&mut cx, &work);
 		more::server_accept(&mut cx, &work);
+		more::response_write_fails(&mut cx, &work);
+		more::clean_run(&mut cx, &work);
+	}
+	if mode == "wstall" {
+		more::writer_stall(&mut cx);
 	}
 	if mode == "all" || mode == "wtime" {
 		more::write_timeouts(&mut cx);
